@@ -1,5 +1,10 @@
 package vapp
 
+import (
+	"hash/fnv"
+	"math/rand"
+)
+
 // AllegStory: one validator is found guilty and frozen, is released after the release time,
 // later another one is found guilty; votes come from the validators still active, with a
 // dissenting vote and an outsider's attempt now and then; a quiet tail lets the validator set
@@ -45,6 +50,31 @@ func (g *Gen) AllegStory(id string, blocks int) *Scenario {
 			add(h+1, "ALLEGATION_VOTE", A{"id": rid, "by": g.pick(g.accts), "choice": 1})
 		}
 		return h + 3
+	}
+	// variant (drawn from a source of its own, so the other histories are what they were): two validators are accused
+	// in one block and all votes on both requests arrive in the next one - two guilty verdicts at the end of one block
+	hs := fnv.New64a()
+	hs.Write([]byte(id))
+	r2 := rand.New(rand.NewSource(int64(hs.Sum64() >> 1)))
+	if len(vals) >= 4 && r2.Intn(3) == 0 {
+		third := vals[2]
+		h0 := 3 + r2.Intn(2)
+		v1, v3 := others(first), others(third)
+		add(h0, "ALLEGATION", A{"id": "r1", "by": v1[r2.Intn(len(v1))], "accused": first, "h": int64(h0 - 1)})
+		add(h0, "ALLEGATION", A{"id": "r3", "by": v3[r2.Intn(len(v3))], "accused": third, "h": int64(h0 - 1)})
+		for _, v := range v1 {
+			add(h0+1, "ALLEGATION_VOTE", A{"id": "r1", "by": v, "choice": 1})
+		}
+		for _, v := range v3 {
+			add(h0+1, "ALLEGATION_VOTE", A{"id": "r3", "by": v, "choice": 1})
+		}
+		for hh := 1; hh <= blocks; hh++ {
+			if r2.Intn(3) == 0 {
+				g.curH = int64(hh)
+				sc.Blocks[hh-1].Txs = append(sc.Blocks[hh-1].Txs, g.Tx("SEND", false))
+			}
+		}
+		return sc
 	}
 	h := 3 + g.R.Intn(2)
 	h = verdict(h, "r1", first)
